@@ -160,6 +160,20 @@ func (lv *LeafVariants) remainsToExist() bool {
 	return defaults || (running && !intentRemoved)
 }
 
+// leavingOwners returns the owners whose value is removed from the leaf by the pending action
+// (delete flag set, not only in the intended store).
+func (lv *LeafVariants) leavingOwners() []string {
+	lv.lesMutex.RLock()
+	defer lv.lesMutex.RUnlock()
+	var result []string
+	for _, l := range lv.les {
+		if l.GetDeleteFlag() && !l.GetDeleteOnlyIntendedFlag() {
+			result = append(result, l.Owner())
+		}
+	}
+	return result
+}
+
 func (lv *LeafVariants) GetHighestPrecedenceValue() int32 {
 	lv.lesMutex.RLock()
 	defer lv.lesMutex.RUnlock()
